@@ -760,7 +760,11 @@ func (c *Ctx) ctxDerivation(rule string) {
 				for _, a := range ci.Common().Args {
 					if isNamed(a.Type(), "context", "Context") {
 						n++
-						c.check(reqCtx != nil && c.ctxDerives(a, func(v ssa.Value) bool { return v == reqCtx }, 0, map[ssa.Value]bool{}), rule,
+						isReqCtx := func(v ssa.Value) bool {
+							ci, ok := v.(*ssa.Call)
+							return ok && calleeName(ci) == "(*net/http.Request).Context"
+						}
+						c.check(reqCtx != nil && c.ctxDerives(a, isReqCtx, 0, map[ssa.Value]bool{}), rule,
 							fmt.Sprintf("%s: context handed to %s", fname(serve), fname(f)), c.ipos(ci), "derives from the HTTP request's context",
 							"the server does not hand the HTTP request's context on: aborting the request (or closing the connection) no longer cancels the handler")
 					}
